@@ -431,7 +431,8 @@ func (r Wrapper) introspectAccessToken(input string) (*ExtendedTokenIntrospectio
 	}
 
 	if token.InputDescriptorConstraintIdMap != nil {
-		for _, reserved := range []string{"iss", "sub", "exp", "iat", "active", "client_id", "scope"} {
+		// all members of the introspection response (and 'sub') are reserved: AdditionalProperties are marshalled last and would override them
+		for _, reserved := range []string{"iss", "sub", "aud", "exp", "iat", "active", "client_id", "scope", "cnf", "vps", "presentation_definitions", "presentation_submissions"} {
 			if _, isReserved := token.InputDescriptorConstraintIdMap[reserved]; isReserved {
 				return nil, fmt.Errorf("IntrospectAccessToken: InputDescriptorConstraintIdMap contains reserved claim name: %s", reserved)
 			}
